@@ -143,6 +143,9 @@ type ReduceCase struct {
 	Groups      []string // -g, from groupExprs
 	Accums      []string // -a, from accumExprs
 	Rows, Cols  int      // --rows / --cols
+	RowsFlag    string   // spelling of the row limit: --rows (also when empty), --num, -n
+	RowsDefault bool     // row limit not given: 20
+	ColsDefault bool     // column limit not given: 10
 	Table       bool     // --table
 	Sort        string   // --sort
 	SortReverse bool
@@ -202,7 +205,21 @@ func checkReduce(c ReduceCase) error {
 	} else {
 		args = append(args, "--nocolor")
 	}
-	args = append(args, "reduce", "--snapshot", "-m", cliMatch, "--rows", strconv.Itoa(c.Rows), "--cols", strconv.Itoa(c.Cols))
+	args = append(args, "reduce", "--snapshot", "-m", cliMatch)
+	if c.RowsDefault {
+		c.Rows = 20 // the defaults of the flag table in cmd/reduce.go
+	} else {
+		rowsFlag := c.RowsFlag
+		if rowsFlag == "" {
+			rowsFlag = "--rows"
+		}
+		args = append(args, rowsFlag, strconv.Itoa(c.Rows))
+	}
+	if c.ColsDefault {
+		c.Cols = 10
+	} else {
+		args = append(args, "--cols", strconv.Itoa(c.Cols))
+	}
 	for _, g := range c.Groups {
 		args = append(args, "-g", g)
 	}
@@ -425,6 +442,9 @@ func genReduce(t *rapid.T) ReduceCase {
 	}
 	c.Rows = rapid.SampledFrom([]int{0, 1, 2, 3, 5, 20, 20, 20, 50}).Draw(t, "rows")
 	c.Cols = rapid.SampledFrom([]int{0, 1, 2, 3, 10, 10, 10}).Draw(t, "cols")
+	c.RowsFlag = rapid.SampledFrom([]string{"--rows", "--rows", "--num", "-n"}).Draw(t, "rowsflag")
+	c.RowsDefault = rapid.IntRange(0, 5).Draw(t, "rowsdefault") == 0
+	c.ColsDefault = rapid.IntRange(0, 5).Draw(t, "colsdefault") == 0
 	c.Table = rapid.IntRange(0, 3).Draw(t, "table") == 0
 	// --sort by an accumulator every case has: its expression text or name
 	if rapid.IntRange(0, 2).Draw(t, "sorted") == 0 {
@@ -442,7 +462,9 @@ func classifyReduce(c ReduceCase) (bool, []string) {
 	l := pbt.Labels{fmt.Sprintf("groups:%d", len(c.Groups))}
 	l.Add(c.Color, "color")
 	l.Add(c.Table, "--table")
-	l.Add(c.Rows == 0 || c.Cols == 0, "limit-0")
+	l.Add((!c.RowsDefault && c.Rows == 0) || (!c.ColsDefault && c.Cols == 0), "limit-0")
+	l.Add(c.RowsDefault || c.ColsDefault, "default-limit")
+	l.Add(!c.RowsDefault && c.RowsFlag != "--rows" && c.RowsFlag != "", "--num/-n")
 	whole := false
 	for _, g := range c.Groups {
 		whole = whole || g == "{0}"
@@ -454,124 +476,9 @@ func classifyReduce(c ReduceCase) (bool, []string) {
 
 var reduceSpec = pbt.Spec[ReduceCase]{
 	Property: "C14", Name: "reduce-table-cli",
-	Rule:   "the real binary: `rare reduce --snapshot -m <3 tab-separated fields> -g ... -a ... --rows n --cols m [--table] [--sort e] [--sort-reverse]` on 0..40 generated lines (keys incl. empty, inner blank, multi-byte, long, ESC, invalid UTF-8; group expressions incl. {0}, whose value holds the array separator, so a group key has more parts than group columns; 0..3 groups x 1..3 accumulators; limits 0..50). Oracle: exits (no hang, RSS < 2 GiB), no panic, exit status 0 (1 without input); stdout = header + min(groups, rows-1) table lines + 2 summary lines; every table line is the row of a distinct group with the accumulators of an independent model (count, sum, last), cut to --cols columns; columns start at one visible offset on all lines; without groups and --table: `name: value` lines. Row order and which rows fall under the limit are the sorter's (C13). Non-trivial: >=3 group rows displayed and checked",
+	Rule:   "the real binary: `rare reduce --snapshot -m <3 tab-separated fields> -g ... -a ... [--rows|--num|-n n] [--cols m] [--table] [--sort e] [--sort-reverse]` on 0..40 generated lines (keys incl. empty, inner blank, multi-byte, long, ESC, invalid UTF-8; group expressions incl. {0}, whose value holds the array separator, so a group key has more parts than group columns; 0..3 groups x 1..3 accumulators; limits 0..50). Oracle: exits (no hang, RSS < 2 GiB), no panic, exit status 0 (1 without input); stdout = header + min(groups, rows-1) table lines + 2 summary lines; every table line is the row of a distinct group with the accumulators of an independent model (count, sum, last), cut to --cols columns; columns start at one visible offset on all lines; without groups and --table: `name: value` lines. Row order and which rows fall under the limit are the sorter's (C13). Non-trivial: >=3 group rows displayed and checked",
 	Budget: pbt.Budget{Quick: 1600, Thorough: 32000},
 	Gen:    genReduce, Check: checkReduce, Classify: classifyReduce, Watchdog: 150 * time.Second,
 }
 
 func TestReduceTableCLI(t *testing.T) { pbt.Run(t, reduceSpec) }
-
-// ---------- `rare <aggregator> --snapshot`: crash layer ---------------------------------
-
-type SnapCase struct {
-	Cfg
-	Agg      string // histo | bars | bars-stacked | table | heatmap | spark
-	Samples  []Sample
-	Num      int
-	Cols     int
-	Extra    bool // -x (histo, table)
-	NoTrunc  bool // spark --notruncate
-	Profile  string
-	SortFlag string
-	Obs      *pbt.Obs `json:"-"`
-}
-
-var snapAggs = []string{"histo", "bars", "bars-stacked", "table", "heatmap", "spark"}
-
-func checkSnap(c SnapCase) error {
-	o := c.Obs
-	var lines []string
-	for _, s := range c.Samples {
-		if !cliKeyOK(string(s.A)) || !cliKeyOK(string(s.B)) {
-			pbt.Exclude("key with a line or field separator: cannot be an input line field")
-			continue
-		}
-		lines = append(lines, cliLine(string(s.A), string(s.B), s.inc()))
-	}
-	args := globalFlags(c.Cfg)
-	two := "{$ {1} {2} {3}}"
-	switch c.Agg {
-	case "histo":
-		args = append(args, "histo", "-e", "{$ {1} {3}}", "-n", strconv.Itoa(c.Num), "--sort", c.SortFlag)
-		if c.Extra {
-			args = append(args, "-x")
-		}
-		args = append(args, "--scale", c.Scale)
-	case "bars":
-		args = append(args, "bars", "-e", two, "--sort", c.SortFlag, "--scale", c.Scale)
-	case "bars-stacked":
-		args = append(args, "bars", "-s", "-e", two, "--sort", c.SortFlag)
-	case "table":
-		args = append(args, "table", "-e", two, "--num", strconv.Itoa(c.Num), "--cols", strconv.Itoa(c.Cols), "--sort-rows", c.SortFlag)
-		if c.Extra {
-			args = append(args, "-x")
-		}
-	case "heatmap":
-		args = append(args, "heatmap", "-e", two, "--num", strconv.Itoa(c.Num), "--cols", strconv.Itoa(c.Cols), "--scale", c.Scale, "--sort-rows", c.SortFlag)
-	case "spark":
-		args = append(args, "spark", "-e", two, "--num", strconv.Itoa(c.Num), "--cols", strconv.Itoa(c.Cols), "--scale", c.Scale, "--sort-rows", c.SortFlag)
-		if c.NoTrunc {
-			args = append(args, "--notruncate")
-		}
-	default:
-		return fmt.Errorf("harness: unknown aggregator %q", c.Agg)
-	}
-	if c.Format != "" {
-		args = append(args, "--format", c.Format)
-	}
-	args = append(args, "--snapshot", "-m", cliMatch)
-	res, ok, err := runRare(lines, args...)
-	if err != nil {
-		return fmt.Errorf("rare %q on %d lines: %w", args, len(lines), err)
-	}
-	if !ok {
-		return nil
-	}
-	o.Label(true, "ran")
-	if crashed(res) {
-		return fmt.Errorf("rare %q crashed (exit %d) on %d lines:\n%s", args, res.exit, len(lines), pbt.Trunc(res.stderr, 1500))
-	}
-	wantExit := 0
-	if len(lines) == 0 {
-		wantExit = 1
-	}
-	if res.exit != wantExit {
-		return fmt.Errorf("rare %q: exit status %d, want %d; stderr %s", args, res.exit, wantExit, pbt.Trunc(res.stderr, 400))
-	}
-	if !strings.Contains(res.stdout, "Matched: ") {
-		return fmt.Errorf("rare %q: the final frame (summary line) is missing from stdout: %s", args, pbt.Trunc(res.stdout, 400))
-	}
-	o.Label(len(lines) >= 3, "lines>=3")
-	return nil
-}
-
-func genSnap(t *rapid.T) SnapCase {
-	c := SnapCase{Obs: pbt.NewObs()}
-	c.Cfg = genCfg(t, true)
-	c.Agg = rapid.SampledFrom(snapAggs).Draw(t, "agg")
-	c.Samples, c.Profile = genHistory(t, true, 40, 25, 60)
-	c.Num = genLimit(t, "num", 30)
-	c.Cols = genLimit(t, "cols", 45)
-	c.Extra = rapid.Bool().Draw(t, "extra")
-	c.NoTrunc = rapid.IntRange(0, 2).Draw(t, "notrunc") == 0
-	c.SortFlag = rapid.SampledFrom([]string{"text", "value", "numeric", "value:asc", "contextual"}).Draw(t, "sort")
-	return c
-}
-
-func classifySnap(c SnapCase) (bool, []string) {
-	l := pbt.Labels{"agg:" + c.Agg, "profile:" + c.Profile, "scale:" + c.Scale}
-	l.Add(c.Color, "color")
-	l.Add(c.Unicode, "unicode")
-	l.Add(c.Num == 0 || c.Cols == 0, "limit-0")
-	l = append(l, c.Obs.All()...)
-	return c.Obs.Has("ran") && c.Obs.Has("lines>=3"), l
-}
-
-var snapSpec = pbt.Spec[SnapCase]{
-	Property: "C14", Name: "snapshot-cli",
-	Rule:   "the real binary: `rare {histo,bars,bars -s,table,heatmap,spark} --snapshot` with the same sample histories written as input lines (keys with line/field separators left out) x limits x scale x format x colour/unicode/noformat flags x sorters. Oracle (crash layer): the process exits (no hang, RSS < 2 GiB), no panic or fatal error on stderr, exit status 0 (1 without input), the final frame with its summary line is on stdout. Non-trivial: ran on >=3 lines",
-	Budget: pbt.Budget{Quick: 1600, Thorough: 32000},
-	Gen:    genSnap, Check: checkSnap, Classify: classifySnap, Watchdog: 150 * time.Second,
-}
-
-func TestSnapshotCLI(t *testing.T) { pbt.Run(t, snapSpec) }
